@@ -8,9 +8,9 @@ From Dastard Require Import Common.ZX C16.Model C16.Spec C16.Proofs.
 (* 1. For ALL histories of events (updates over any tags with repeats and unchanged values, SENDALLs,
       waits, saves with any failure pattern): the set published in answer to a SENDALL issued after the
       history is exactly { (t, last message of t) | t updated at least once, t a status topic }, one
-      message per topic.  Hypothesis: the text of a message is never empty (it is JSON). *)
+      message per topic.  Hypothesis: the text of a message is never empty (it is JSON; value 0 = the empty string). *)
 Theorem sendall_is_last_per_topic :
-  forall (cfg : config) (d : fs entry) (h : list event) (l : list (string * string)),
+  forall (cfg : config) (d : fs entry) (h : list event) (l : list (string * value)),
     Forall wf_event h ->
     snd (step (fst (run (init_sys cfg d) h)) SendAll) = Published l ->
     NoDup (map fst l) /\
@@ -21,7 +21,7 @@ Print Assumptions sendall_is_last_per_topic.
 Example sendall_is_last_per_topic_hypotheses_met :
   Forall wf_event example_history /\
   snd (step (fst (run (init_sys [] [(Main, [])]) example_history)) SendAll)
-  = Published [("STATUS", "{""Running"":true,""Nsamples"":2000}"); ("ALIVE", "1"); ("TRIGGER", "[]")]%string.
+  = Published [("STATUS", 22); ("ALIVE", 31); ("TRIGGER", 41)]%string.
 Proof. exact (conj example_wf example_answer). Qed.
 
 (* 2. For ALL histories: a save that runs to its end without a failing operation leaves a main file from
@@ -29,7 +29,7 @@ Proof. exact (conj example_wf example_answer). Qed.
       every key no persistent topic maps to keeps the value it had.  Hypotheses: the rendered object is a
       function of the message text; no two tags differ only by case (viper keys are case-insensitive). *)
 Theorem saved_is_latest :
-  forall (cfg : config) (d : fs entry) (h : list event) (now : string),
+  forall (cfg : config) (d : fs entry) (h : list event) (now : value),
     Forall wf_event h -> consistent h -> case_distinct h ->
     let y := fst (run (init_sys cfg d) h) in
     let y' := fst (step y (SaveTick now [])) in
@@ -77,7 +77,7 @@ Print Assumptions save_crash_safe_any_number_of_times.
 (* the save step of the whole system is such a save: every state of its trace reads as the old or as
    the written configuration *)
 Theorem updater_save_is_crash_safe :
-  forall (y : sys) (now : string) (faults : list bool) tr reads (old : config),
+  forall (y : sys) (now : value) (faults : list bool) tr reads (old : config),
     snd (step y (SaveTick now faults)) = Saved tr reads ->
     read (disk y) Main = Some old ->
     exists written,
@@ -116,6 +116,10 @@ Theorem checker_sound :
                                       slookup (to_lower t) cfg = Some ob)
         | None => True
         end
+    | Restart, Restored l =>
+        saved_is_current (map fst pre) = true ->
+        forall t ob, persistent_topic t = true -> restorable_topic t = true ->
+                     last_obj t (map fst pre) = Some ob -> slookup (to_lower t) l = Some ob
     | _, _ => True
     end.
 Proof. exact checker_accepts_means. Qed.
